@@ -1,7 +1,7 @@
 (* Proofs for property C02: the filtering pipeline of opt.c (Args/Exclude.v, the repaired code,
    variant `fixed') computes the specification (Args/ExcludeSpec.v). *)
 From Coq Require Import ZifyBool ZifyNat ZifyN.
-From PV Require Import Base.DecimalFacts Hostlist.HLFacts Hostlist.HLParseFacts Hostlist.HLLimits.
+From PV Require Import Base.DecimalFacts Hostlist.HLSpec Hostlist.HLFacts Hostlist.HLParseFacts Hostlist.HLLimits.
 From PV Require Export Args.ExcludeHLFacts Args.ExcludeSpec Args.Exclude.
 Local Open Scope N_scope.
 
@@ -515,3 +515,128 @@ Proof.
 Qed.
 
 End Gather.
+
+(* ====================================================================== *)
+(* 5. what "filter" means for the survivors                                *)
+(* ====================================================================== *)
+
+Lemma filter_subseq {A} (p : A -> bool) l : subseq (filter p l) l.
+Proof. induction l as [|x l IH]; [constructor|]. cbn [filter]. destruct (p x); constructor; auto. Qed.
+
+Lemma occ_filter_keep (p : bytes -> bool) h l : p h = true -> occ h (filter p l) = occ h l.
+Proof.
+  intros Hp. unfold occ. induction l as [|x l IH]; [reflexivity|]. cbn [filter].
+  destruct (p x) eqn:Ex; cbn [filter]; destruct (beq h x) eqn:Eb; cbn [length]; auto.
+  apply beq_eq in Eb. subst. congruence.
+Qed.
+
+Lemma filter_drop_all {A} (p : A -> bool) h l : p h = false -> ~ In h (filter p l).
+Proof. intros Hp H. apply filter_In in H as [_ H]. congruence. Qed.
+
+(* ====================================================================== *)
+(* 6. list_push_hostlist as it was: the retry loop                         *)
+(* ====================================================================== *)
+
+(* with the parentheses the loop ends after at most 11 doublings - with the whole string or with
+   a truncated one *)
+Lemma retry_paren_terminates l :
+  match retry_loop true 13 l PUSH_BUF0 0 with
+  | RSpin => False
+  | RFit _ k | RTrunc _ k => (k <= 11)%nat
+  | RPrintFault => True
+  end.
+Proof.
+  unfold PUSH_BUF0.
+  do 13 (cbn [retry_loop];
+         match goal with
+         | |- context [print_into l ?n] => destruct (print_into l n) as [[? [|]]|]; try exact I; try lia
+         end;
+         try match goal with
+         | |- context [?a * 2 <? PUSH_CAP] =>
+           let v := eval vm_compute in (a * 2 <? PUSH_CAP) in change (a * 2 <? PUSH_CAP) with v; cbn iota
+         end; try lia).
+Qed.
+
+(* as written (n *= (2 < 0x7fffff)) it never ends once the first attempt fails *)
+Lemma retry_old_spins l s fuel : print_into l PUSH_BUF0 = Some (s, false) ->
+  retry_loop false (S fuel) l PUSH_BUF0 0 = RSpin.
+Proof. intros H. cbn [retry_loop]. rewrite H. reflexivity. Qed.
+
+Lemma push_names_total excl h : exists x, push_hostlist PushNames excl h = XOk x.
+Proof. eexists. reflexivity. Qed.
+
+(* ====================================================================== *)
+(* 7. the executable domain test is sound                                  *)
+(* ====================================================================== *)
+
+Lemma fold_dval_pow F : forall acc, fold_left dval F acc = acc * 10 ^ N.of_nat (length F) + value F.
+Proof.
+  induction F as [|d F IH] using rev_ind; intros acc.
+  - cbn [fold_left length]. change (value []) with 0. change (10 ^ N.of_nat 0) with 1. lia.
+  - unfold value. rewrite !fold_left_app. cbn [fold_left]. rewrite IH. fold (value F).
+    rewrite app_length. cbn [length]. replace (N.of_nat (length F + 1)) with (N.succ (N.of_nat (length F))) by lia.
+    rewrite N.pow_succ_r'. unfold dval. change (fold_left (fun acc0 d0 => 10 * acc0 + (d0 - 48)) F 0) with (value F). lia.
+Qed.
+
+Lemma d02b_sound r : hr_ok r -> d02b r = true -> D02r r.
+Proof.
+  intros Hok H. unfold d02b in H. unfold D02r. destruct (single r) eqn:Es; [left; reflexivity|right].
+  cbn [orb] in H. intros n Hn. unfold digit_tail.
+  set (D := snd (split_suffix (pfx r))) in *.
+  rewrite value_app, fold_dval_pow, value_fmt, fmt_length in *.
+  assert (Hl : (Nat.max (wid r) (ndigits n) <= Nat.max (wid r) (ndigits (hi r)))%nat).
+  { pose proof (ndigits_mono n (hi r) ltac:(lia)). lia. }
+  assert (Hp : 10 ^ N.of_nat (Nat.max (wid r) (ndigits n)) <= 10 ^ N.of_nat (Nat.max (wid r) (ndigits (hi r)))).
+  { apply N.pow_le_mono_r; lia. }
+  nia.
+Qed.
+
+Lemma hr_ok2b_sound l : Forall hr_ok l -> forallb hr_ok2b l = true -> Forall hr_ok2 l.
+Proof.
+  intros Hok H. rewrite forallb_forall in H. rewrite Forall_forall in *. intros r Hr. split; auto.
+  specialize (H r Hr). unfold hr_ok2b, NUM15 in H. unfold NUM_LIMIT. lia.
+Qed.
+
+Lemma name_domb_sound nm : name_domb nm = true -> name_dom nm.
+Proof.
+  unfold name_domb, name_dom. destruct (create nm) as [t|e|f] eqn:Ec; auto. intros H.
+  apply hr_ok2b_sound; auto. apply (create_size_bound _ _ Ec).
+Qed.
+
+Lemma arg_domb_sound arg : arg_domb arg = true -> arg_dom arg.
+Proof.
+  unfold arg_domb, arg_dom. destruct (create arg) as [t|e|f] eqn:Ec; auto. intros H.
+  apply andb_true_iff in H as [H1 H2]. split.
+  - apply hr_ok2b_sound; auto. apply (create_size_bound _ _ Ec).
+  - rewrite forallb_forall in H2. apply Forall_forall. intros nm Hnm. apply name_domb_sound. auto.
+Qed.
+
+Lemma domain_check_sound compiles files items :
+  domain_check compiles files items = true -> run_domain compiles files items.
+Proof.
+  unfold domain_check, run_domain. destruct (gather compiles fixed files items) as [a| | | |]; auto.
+  destruct (a_wcoll a) as [w|]; auto. intros H.
+  apply andb_true_iff in H as [H H3]. apply andb_true_iff in H as [H1 H2].
+  split; [lia|]. split.
+  - destruct (wcoll_expand_inv w) as (Hok & _). rewrite forallb_forall in H2. rewrite Forall_forall in *.
+    intros r Hr. apply d02b_sound; auto.
+  - rewrite forallb_forall in H3. apply Forall_forall. intros e He. apply arg_domb_sound; auto.
+Qed.
+
+(* no command line in the domain makes the repaired pipeline loop: it ends with the specified list,
+   with an error message, or with "no targets" *)
+Lemma run_total compiles matches files items :
+  run_domain compiles files items ->
+  run compiles matches fixed files items <> XDiverges /\
+  (forall f, run compiles matches fixed files items <> XFault f).
+Proof.
+  intros Hdom. unfold run_domain in Hdom. unfold run.
+  destruct (gather compiles fixed files items) as [a| | | |] eqn:Eg.
+  - cbn [xbind]. destruct (a_wcoll a) as [w|] eqn:Ew.
+    + destruct Hdom as [Hm Hd]. rewrite (finish_spec matches a w); auto. split; [discriminate|intros f; discriminate].
+    + unfold finish. rewrite Ew. split; [discriminate|intros f; discriminate].
+  - cbn [xbind]. split; [discriminate|intros f; discriminate].
+  - cbn [xbind]. split; [discriminate|intros f; discriminate].
+  - exfalso. unfold gather in Eg. rewrite gather_decomp in Eg. destruct (existsb _ _); discriminate.
+  - exfalso. unfold gather in Eg. rewrite gather_decomp in Eg. destruct (existsb _ _); discriminate.
+Qed.
